@@ -90,6 +90,11 @@ CHECKS = {
    text="Static half: the release C generated from the working tree is compiled without sanitizers at -O2 (thorough: more compilers/flags), every ELF section, symbol and relocation is read (debug/elf, cross-checked with size/nm/objdump): writable sections (.data/.bss/.tdata/.tbss and sub-sections) must be empty, undefined symbols within {memcpy, memmove, memset, memcmp/bcmp} plus calloc/free referenced only from alloc helpers, exported functions of each module exactly the pub methods / initialize / alloc / sizeof / upcast helpers computed from lang/parse over std/<pkg>/*.wuffs (base: the MAYBE_STATIC prototypes of the public headers). Dynamic half: every std struct walked byte by byte over valid seeds, failing deviations, 7-byte pieces, suspended and uninitialised states; after every call every pure method is invoked and the object and all buffers must be bit-for-bit unchanged.",
    note="The static verdict holds for gcc 12 / clang-14, x86-64 ELF and the listed flags; it is an exhaustive inspection of a finite artefact rather than of behaviours. Generated test programs are not compiled here, only std. Pure methods outside the base interfaces (zlib.dictionary_id) are not reachable.",
    ref="DESIGN.md section 4 C10"),
+ "C04": dict(cat="translation_validation", engine="progen+interp",
+   technique="bounded-exhaustive enumeration of accepted Wuffs programs x all call histories (the interpreter's BFS over receiver states and argument tuples), each compiled by the working tree's cgen (the function wuffs-c gen calls) and gcc/clang and executed by a generated C driver; per-history trace digests compared with the reference interpreter's traces",
+   text="Every accepted program of the families arith, index, facts, loops, refine, calls, io, coro (one-shot), seeds and a local extras family (terminating while-true loops with continue/break, observable labelled continue) is translated by the tree's code generator (in-process cgen.Do, cross-checked byte for byte against the real wuffs-c on a sample), batched ~96 per C driver, compiled with gcc -O1 + ASan + UBSan (thorough: also gcc -O2 and clang-14 -O2) and run over exactly the histories the interpreter explored: return values and status strings, per-I/O-argument ri/wi/closed and written bytes, slice argument contents after the call and the receiver field dump are folded into a digest per history and compared; a mismatch is re-run with full traces to name the first diverging call and item.",
+   note="programs = accepted programs compared; disagreements_checked = (program, history) trace comparisons. A gcc rejection is C11's business (counted, skipped); a sanitizer death is counted and the batch re-run plain. Not compared (documented as unspecified or interpreter-ambiguous): the reader's ri when a call suspends inside a partially available multi-byte read; bytes beyond the final wi. No iterate family; the ptr family is not driven; struct-typed fields are not dumped.",
+   ref="DESIGN.md section 4 C04, section 3 E3"),
 }
 
 NOT_YET = "check not built yet in this session (design in DESIGN.md section 4); no claim made"
@@ -129,8 +134,8 @@ def main():
              "kind_free_text": "cooperative scheduler + go/ast rewriter of lib/rac/conc_reader.go (go build -overlay); stateless DFS over schedules with preemption/deviation bounds and happens-before state pruning"},
             {"name": "cserve", "path": "csrc/ internal/cserve/", "serves_properties": sorted(k for k, v in CHECKS.items() if v["engine"] == "cserve") + ["C17"],
              "kind_free_text": "C state server compiled against C freshly generated from the working tree (ASan+UBSan / plain with allocator counters / AVOID_CPU_ARCH variants); holds cloneable object slots and executes single calls with the buffer contract checked in C; the exploration (BFS/DFS, visited sets, chunk scripts) is in Go"},
-            {"name": "progen+interp", "path": "internal/progen/ internal/interp/", "serves_properties": sorted(k for k, v in CHECKS.items() if v["engine"] == "progen+interp"),
-             "kind_free_text": "E1 bounded-exhaustive Wuffs program generator (tries over statement alphabets, one family per checker mechanism) + E2 reference interpreter over the AST annotated by the real check.Check, with safety / MBounds / fact monitors, explicit BFS over receiver states and coroutine suspend-resume plans"},
+            {"name": "progen+interp", "path": "internal/progen/ internal/interp/ internal/cdrive/", "serves_properties": sorted(k for k, v in CHECKS.items() if v["engine"] == "progen+interp"),
+             "kind_free_text": "E1 bounded-exhaustive Wuffs program generator (tries over statement alphabets, one family per checker mechanism) + E2 reference interpreter over the AST annotated by the real check.Check, with safety / MBounds / fact monitors, explicit BFS over receiver states and coroutine suspend-resume plans; E3 cdrive: batch C driver that replays the interpreter's histories on the C generated for the same programs and compares trace digests"},
             {"name": "detmc", "path": "checks/c20/", "serves_properties": ["C20"],
              "kind_free_text": "determinism explorer: go/ast map-range rewriter (overlay twins with forced iteration orders), tmpfs directory-order permutations, environment variation, byte comparison of generated output"},
         ],
